@@ -478,3 +478,16 @@ func (g *Grammar) RecursiveNTs() []bool {
 	}
 	return out
 }
+
+// HasExtendedOps: the grammar uses operators the reference semantics does not model (trims, Single, ...)
+func (g *Grammar) HasExtendedOps() bool {
+	ext := false
+	for _, b := range g.NTs {
+		Walk(b, func(e *Expr) {
+			if e.Op > OpNT {
+				ext = true
+			}
+		})
+	}
+	return ext
+}
